@@ -1,5 +1,5 @@
 /- REGENERATED on every check run by extract/threadevents from runtime/thread.go — do not edit.
-   source hash (the extracted functions): 7ebfb83aa852551e -/
+   source hash (the extracted functions): c82a74de58bc68f9 -/
 import GoluaVerif.Model.CoProto
 namespace GoluaVerif.Generated.ThreadEvents
 open GoluaVerif.Model.CoProto
@@ -30,11 +30,11 @@ def p_Start : Proc := ⟨"Start", [
 def p_Start_go : Proc := ⟨"Start.go", [
   [.recv .self, .touch, .run, .touch, .callEnd]]⟩
 
-/-- runtime/thread.go:320 -/
+/-- runtime/thread.go:337 -/
 def p_getResumeValues : Proc := ⟨"getResumeValues", [
   [.recv .self]]⟩
 
-/-- runtime/thread.go:328 -/
+/-- runtime/thread.go:345 -/
 def p_sendResumeValues : Proc := ⟨"sendResumeValues", [
   [.send .self]]⟩
 
